@@ -65,8 +65,8 @@ def worker(arg):
 
 def check(tier, seed):
     t = pc.trees("plain", "san")
-    n = 400 if tier == "quick" else 2400
-    nsan = 32 if tier == "quick" else 192
+    n = 400 if tier == "quick" else 1600
+    nsan = 32 if tier == "quick" else 128
     res = Result("exploration")
     res.rule = RULE
     base = seed * 1000000 + (0 if tier == "quick" else 50000) + 500000
